@@ -1581,6 +1581,16 @@ def m_checked_shift(ex, a, callee, canon):
     return some(Int(z3.simplify((x.t << amt) if canon.endswith("checked_shl") else z3.LShR(x.t, amt)), x.ty))
 
 
+@model(r"^core::num::<impl (u8|u16|u32|u64|usize)>::wrapping_(shl|shr)$")
+def m_wrapping_shift(ex, a, callee, canon):
+    # the shift amount is taken modulo the bit width (u8: `x.wrapping_shr(8)` == x)
+    x, r = a
+    n = x.t.size()
+    rt = z3.Extract(n - 1, 0, r.t) if r.t.size() >= n else z3.ZeroExt(n - r.t.size(), r.t)
+    amt = rt & z3.BitVecVal(n - 1, n)
+    return Int(z3.simplify((x.t << amt) if canon.endswith("wrapping_shl") else z3.LShR(x.t, amt)), x.ty)
+
+
 @model(r"^<(\w+::)*(\w+) as (num_traits::)?FromPrimitive>::from_(u8|u16|u32|u64|i32|i64|usize)$")
 def m_enum_from_primitive(ex, a, callee, canon):
     """num_derive FromPrimitive on a fieldless enum of the crate (discriminants read from the source)"""
